@@ -266,6 +266,12 @@ def build_case(group, base, rnd):
             # the same spelling at several addresses with a location-dependent inline field
             en, mask = rnd.choice([("trap", 0o377), ("emt", 0o377), ("mark", 0o77), ("spl", 7)])
             stmts.append(apm.insn(en, ("inl", ("bin", "&", ("bin", "/", ("dot",), apm.num(2)), apm.num(mask)))))
+        if rnd.random() < 0.05:
+            # operand values spelled as radix-50 and character literals of one, two or three characters
+            lit = rnd.choice([("r50", "".join(rnd.choice("ABCXYZ019$.%") for _ in range(rnd.randrange(1, 4)))), ("chr", rnd.choice("AZaz09#")),
+                              ("chr", rnd.choice("AZaz") + rnd.choice("09bY"))])
+            stmts.append(rnd.choice([apm.insn("mov", ("imm", lit), ("reg", rnd.randrange(6))), apm.insn("cmp", ("idx", lit, rnd.randrange(6)), ("abs", lit)),
+                                     apm.insn("bis", ("imm", ("bin", "+", lit, apm.num(1))), ("mode", 1, rnd.randrange(6)))]))
         if rnd.random() < 0.15:
             stmts.append(rnd.choice([apm.data(".word", apm.num(rnd.randrange(0x10000))), apm.blk(".blkb", apm.num(2 * rnd.randrange(0, 6))),
                                      apm.data(".byte", apm.num(1), apm.num(2))]))
